@@ -33,7 +33,8 @@ def gen(tier, rng, scale):
         symtab = {}
         pmaps = {}
         for l in range(nlib):
-            ops.append(["L", "lib%d" % l])
+            # two libraries may share their file name (different directories and debug ids): they stay different libraries
+            ops.append(["L", "lib%d" % (l if not (l and rng.chance(1, 3)) else rng.below(l)), "v%d" % l])
             if rng.chance(1, 2):
                 syms = []
                 symtab[l] = []
@@ -322,6 +323,7 @@ def _coq_case(ops, prof):
     I = Intern()
     S = Intern()          # string contents
     procs, threads, libs, maps = [], [], [], {}
+    lpaths = []          # the identity of a library in the content ids is its path (names may repeat)
     samples, mstacks, visible, selected, counters = [], [], [], [], []
     reqs = []
     mops, nschemas, gtypes, text_ty = [], 0, [], None
@@ -405,16 +407,16 @@ def _coq_case(ops, prof):
             (_, nslib, nsaddr) = nsh[k]
             if hit is None:
                 return I(("F", nm if nm is not None else "0x%x" % x, None, None, fl, ln, cl, 0, None))
-            return I(("F", nm if nm is not None else ns_first[(th, nslib, nsaddr)], libs[hit[0]], hit[1], fl, ln, cl, depth, (libs[nslib], nsaddr)))
+            return I(("F", nm if nm is not None else ns_first[(th, nslib, nsaddr)], lpaths[hit[0]], hit[1], fl, ln, cl, depth, (lpaths[nslib], nsaddr)))
         if hit is None:
             return I(("F", "0x%x" % x, None, None, None, None, None, 0, None))
         sy = sym_lookup(hit[0], hit[1])
         if sy is None:
-            return I(("F", "0x%x" % hit[1], libs[hit[0]], hit[1], None, None, None, 0, None))
+            return I(("F", "0x%x" % hit[1], lpaths[hit[0]], hit[1], None, None, None, 0, None))
         # the thread's native-symbol row for (library, symbol address) keeps the name it was first created with - by an earlier
         # handle_for_native_symbol call or an earlier frame - and the frame's function is named after that row
         nm = ns_first.setdefault((th, hit[0], sy[0]), sy[2])
-        return I(("F", nm, libs[hit[0]], hit[1], None, None, None, 0, (libs[hit[0]], sy[0])))
+        return I(("F", nm, lpaths[hit[0]], hit[1], None, None, None, 0, (lpaths[hit[0]], sy[0])))
 
     for o in ops:
         k = o[0]
@@ -422,6 +424,7 @@ def _coq_case(ops, prof):
             procs.append((o[1], o[2]))
         elif k == "L":
             libs.append(o[1])
+            lpaths.append("/lib/%s/%s" % (o[2], o[1]) if len(o) > 2 else "/lib/%s" % o[1])
         elif k == "Y":
             tab = []
             for x in o[2:]:
@@ -495,13 +498,13 @@ def _coq_case(ops, prof):
                 f = ft["func"][i]
                 name = strings[fu["name"][f]]
                 r = fu["resource"][f]
-                lib = None if (r is None or r < 0) else prof["libs"][rt["lib"][r]]["name"]
+                lib = None if (r is None or r < 0) else prof["libs"][rt["lib"][r]]["path"]
                 addr = ft["address"][i]
                 addr = None if (addr is None or addr < 0) else addr
                 fl = fu["fileName"][f]
                 fl = None if fl is None else strings[fl]
                 ns = ft["nativeSymbol"][i]
-                ns = None if ns is None else (prof["libs"][nst["libIndex"][ns]]["name"], nst["address"][ns])
+                ns = None if ns is None else (prof["libs"][nst["libIndex"][ns]]["path"], nst["address"][ns])
                 fids.append(I(("F", name, lib, addr, fl, ft["line"][i], ft["column"][i], ft["inlineDepth"][i], ns)))
             except Exception:
                 fids.append(I(("BAD", i)))
@@ -571,8 +574,8 @@ def _coq_case(ops, prof):
         obmarkers.append(K.coq_list(rows))
     oblibs = []
     for l in prof["libs"]:
-        nm = l["name"]
-        oblibs.append("%d%%nat" % (libs.index(nm) if nm in libs else 999))
+        nm = l["path"]
+        oblibs.append("%d%%nat" % (lpaths.index(nm) if nm in lpaths else 999))
     meta = prof["meta"]
     obc = ["(%d%%nat, %s)" % (c["mainThreadIndex"], _id(c["pid"])) for c in prof.get("counters", [])]
     nat = lambda l: K.coq_list(["%d%%nat" % x for x in l])
